@@ -504,6 +504,30 @@ func (g *GoBackNConn) sendPacketsForever() error {
 				if err := resendQueue(); err != nil {
 					return err
 				}
+
+			case <-g.pingTicker.Ticks():
+				// Nothing has been received from the peer for
+				// the ping interval. The queue is full, so we
+				// can't add a ping packet to it, but the packets
+				// that we keep resending serve as the probe: we
+				// only start the pong timer here. Any packet
+				// from the peer will pause it again. As above, a
+				// pong tick that is already pending takes
+				// priority over the ping tick.
+				select {
+				case <-g.pongTicker.Ticks():
+					return errKeepaliveTimeout
+				default:
+				}
+
+				if !g.pongTicker.IsActive() {
+					g.pongTicker.Reset()
+					g.pongTicker.Resume()
+				}
+				g.pingTicker.Reset()
+
+			case <-g.pongTicker.Ticks():
+				return errKeepaliveTimeout
 			}
 		}
 	}
